@@ -69,7 +69,8 @@ HEADER_ALTS = {
                      'application/xml; charset=utf-8; x=1', 'a\xe9'],
     'Content-Encoding': ['gzip', 'identity', 'IDENTITY', '', 'deflate'],
     'Content-Language': ['en'],
-    'Content-Length': [None, '0', 'SHORT', 'LONG', '-1', 'abc', '1e3', ' 5', '1000000000', '', '+5', '0x10',
+    'Content-Length': [None, '0', 'SHORT', 'LONG', '-1', 'abc', '1e3', ' 5', '1000000000', '1000000000000', '9223372036854775807',
+                       '9223372036854775808', '1' + '0' * 30, '', '+5', '0x10',
                        '5, 5', 'DUP'],
     'CIMExport': [None, 'MethodResponse', '', 'bogus'],
     'CIMExportMethod': [None, 'Other', ''],
